@@ -17,7 +17,7 @@ DROP_KW = {'typename', 'template', 'inline', 'BOOST_NOINLINE', 'BOOST_FORCEINLIN
 EXC_RET = '( HandledEnum ) 0'
 
 def back_xform(templates, typevars=None, refparams=('fsm',), throwers=(), members=(), methods=(),
-               rewrites=(), exc_ret=EXC_RET, enums=None, pre_rewrites=(), try_=False, drop=DROP_KW):
+               rewrites=(), exc_ret=EXC_RET, enums=None, pre_rewrites=(), try_=False, drop=DROP_KW, refvals=(), post=None):
     def xf(tk, F):
         tk = X.rule_pp(tk, F)
         tk = X.rule_ns(tk, F)
@@ -28,11 +28,12 @@ def back_xform(templates, typevars=None, refparams=('fsm',), throwers=(), member
         tk = X.rule_casts(tk, F)
         if enums: tk = X.rule_enumq(tk, F, enums)
         tk = X.rule_targ(tk, F, set(templates), dict(typevars or {}))
-        tk = X.rule_ref(tk, F, set(refparams))
+        tk = X.rule_ref(tk, F, set(refparams), set(refvals))
         if members or methods: tk = X.rule_this(tk, F, set(members), set(methods))
         else: tk = X.rule_this(tk, F)
         if rewrites: tk = X.rule_rewrites(tk, F, rewrites)
         if throwers: tk = X.rule_exc(tk, F, set(throwers), exc_ret)
         if try_: tk = X.rule_try(tk, F)
+        if post: tk = post(tk, F)
         return tk
     return xf
